@@ -15,6 +15,7 @@ import MajoranaVerif.Proofs.SeqMachine
 import MajoranaVerif.Proofs.Mvp3Cycles
 import MajoranaVerif.Proofs.CycleTrace
 import MajoranaVerif.Proofs.CycleTraceMvp3
+import MajoranaVerif.Proofs.Mvp5Cycles
 open GoInt Model.Seq Proofs.Seq
 
 namespace Props.C12
@@ -395,5 +396,68 @@ theorem flushOf_le (cfg : Model.Mmu.Config) (s : Model.Mvp3.State) :
 /-- Non-vacuity of `mvp3_exact`: the run `lw; add; sw; ret` above costs
 (309+1+(3+309)+50+1) + (3+1+0+1+1) + (3+1+0+1+3) + (3+1+1) + 309 (one line flushed). -/
 example : (Model.Mvp3.runMvp3 viApp viState1 10).cycles = 673 + 6 + 8 + 5 + 309 := by decide +kernel
+
+end Props.C12
+
+/-! ### MVP-4 and MVP-5 (work package CYC45): lower bound of the pipelined machines
+
+`Model.Mvp4` / `Model.Mvp5` are the cycle-accurate models of proc/mvp4 and proc/mvp5 (tied to the Go machines on every
+run: status, CYCLE COUNT, final state — the `m4=` / `m5=` fields).  Issue width 1: a tick runs `executeUnit.run` at
+most once (`Proofs.Mvp4.executeCycle_cnt`, `Proofs.Mvp5.executeCycle5_cnt`), and only a tick of the outer loop that
+counts a cycle does (`Proofs.Mvp4.TickCnt`); the drain loop after `ret` counts no cycles and executes nothing.
+  * `mvp4_lower_bound` / `mvp5_lower_bound`: for EVERY program, initial context and tick budget the returned cycle count
+    is at least the number of `executeUnit.run` calls (the model's counter `executed`), and positive whenever the run
+    ends without a Go panic;
+  * `mvp4_lower_bound_spec` / `mvp5_lower_bound_spec`: along a well-formed specification run the returned cycle count is
+    at least the number of instructions the SPECIFICATION executes (every visit of an architectural state starts with
+    a tick that counts a cycle). -/
+
+namespace Props.C12
+
+/-- **lower bound and positivity, MVP-4**, every run -/
+theorem mvp4_lower_bound (app : App) (ctx : Model.Context) (ticks : Nat) :
+    ((Model.Mvp4.run app ctx ticks).final.executed : Int) ≤ (Model.Mvp4.run app ctx ticks).final.cycles ∧
+    (∀ hk, (Model.Mvp4.run app ctx ticks).halt = some hk → (∀ w, hk ≠ .panic w) →
+      1 ≤ (Model.Mvp4.run app ctx ticks).final.cycles) :=
+  ⟨Proofs.Mvp4.run_executed_le_cycles app ctx ticks, fun hk hh hnp => Proofs.Mvp4.run_cycles_pos app ctx ticks hk hh hnp⟩
+
+/-- **lower bound and positivity, MVP-5**, every run -/
+theorem mvp5_lower_bound (app : App) (ctx : Model.Context) (ticks : Nat) :
+    ((Model.Mvp5.run app ctx ticks).final.base.executed : Int) ≤ (Model.Mvp5.run app ctx ticks).final.base.cycles ∧
+    (∀ hk, (Model.Mvp5.run app ctx ticks).halt = some hk → (∀ w, hk ≠ .panic w) →
+      1 ≤ (Model.Mvp5.run app ctx ticks).final.base.cycles) :=
+  ⟨Proofs.Mvp5.run5_executed_le_cycles app ctx ticks, fun hk hh hnp => Proofs.Mvp5.run5_cycles_pos app ctx ticks hk hh hnp⟩
+
+/-- **lower bound against the specification, MVP-4**: if the specification run is well-formed and ends after `n`
+executed instructions, every MVP-4 run that ends has counted at least `n` cycles. -/
+theorem mvp4_lower_bound_spec (app : App) (hw : Proofs.Refine.WfApp app) (ctx : Model.Context) (m : Spec.Machine)
+    (hR : Proofs.Refine.Rel ctx m) (hsz : m.mem.size + 64 ≤ 2 ^ 31)
+    (hpw : ∀ r, GoMap.get1 ctx.PendingWriteRegisters r = 0) (fuel : Nat)
+    (hwf : ∀ why, (Spec.run (Proofs.Refine.specProg app) m fuel).stop ≠ .notWf why) (ticks : Nat) (hk : Halt)
+    (hh : (Model.Mvp4.run app ctx ticks).halt = some hk) :
+    ((Spec.run (Proofs.Refine.specProg app) m fuel).steps : Int) ≤ (Model.Mvp4.run app ctx ticks).final.cycles :=
+  (Proofs.Mvp4.mvp4_cycles_of_halt app hw ctx m hR hsz hpw fuel hwf ticks hk hh).1
+
+/-- **lower bound against the specification, MVP-5** -/
+theorem mvp5_lower_bound_spec (app : App) (hw : Proofs.Refine.WfApp app) (ctx : Model.Context) (m : Spec.Machine)
+    (hR : Proofs.Refine.Rel ctx m) (hsz : m.mem.size + 64 ≤ 2 ^ 31)
+    (hpw : ∀ r, GoMap.get1 ctx.PendingWriteRegisters r = 0) (fuel : Nat)
+    (hwf : ∀ why, (Spec.run (Proofs.Refine.specProg app) m fuel).stop ≠ .notWf why) (ticks : Nat) (hk : Halt)
+    (hh : (Model.Mvp5.run app ctx ticks).halt = some hk) :
+    ((Spec.run (Proofs.Refine.specProg app) m fuel).steps : Int) ≤ (Model.Mvp5.run app ctx ticks).final.base.cycles :=
+  (Proofs.Mvp5.mvp5_cycles_of_halt app hw ctx m hR hsz hpw fuel hwf ticks hk hh).1
+
+/-- Non-vacuity: `li ; addi ; ret` on MVP-4 and MVP-5 — 3 instructions executed, 314 cycles (one line fetch of the
+instruction cache, 309, plus the pipeline). -/
+example :
+    (Model.Mvp4.run { instrs := [.li_ { rd := 5, imm := 7#32 }, .addi_ { rd := 6, rs := 5, imm := 1#32 }, .ret_ {}], labels := {} }
+        { Memory := List.replicate 64 0#8 } 4000).final.executed = 3 ∧
+    (Model.Mvp5.run { instrs := [.li_ { rd := 5, imm := 7#32 }, .addi_ { rd := 6, rs := 5, imm := 1#32 }, .ret_ {}], labels := {} }
+        { Memory := List.replicate 64 0#8 } 4000).final.base.executed = 3 ∧
+    (Model.Mvp4.run { instrs := [.li_ { rd := 5, imm := 7#32 }, .addi_ { rd := 6, rs := 5, imm := 1#32 }, .ret_ {}], labels := {} }
+        { Memory := List.replicate 64 0#8 } 4000).final.cycles = 314 ∧
+    (Model.Mvp5.run { instrs := [.li_ { rd := 5, imm := 7#32 }, .addi_ { rd := 6, rs := 5, imm := 1#32 }, .ret_ {}], labels := {} }
+        { Memory := List.replicate 64 0#8 } 4000).final.base.cycles = 314 := by
+  decide +kernel
 
 end Props.C12
